@@ -333,6 +333,19 @@ fn trace_unit(sect: &[u8], offset: usize, asz: u8, le: bool, evs: &mut Vec<Value
     Some(next)
 }
 
+/// `trace_unit` with a panic turned into a `Panic` event (which no action of the trace spec explains).
+fn traced(sect: &[u8], offset: usize, asz: u8, le: bool, evs: &mut Vec<Value>, tag: &str, maxprog: usize) -> Option<usize> {
+    let mut next = None;
+    let o = guarded(|| {
+        next = trace_unit(sect, offset, asz, le, evs, tag, maxprog);
+        Value::Null
+    });
+    if o.get("outcome").is_some() {
+        evs.push(json!({"ev": "Panic", "tag": tag, "msg": o["msg"], "loc": o["loc"]}));
+    }
+    next
+}
+
 fn uleb(out: &mut Vec<u8>, v: u64) {
     gimli::leb128::write::unsigned(out, v).unwrap();
 }
@@ -602,7 +615,7 @@ fn record(out: &str, a: &Args) {
         let l = 1 + rng.below(len as u64) as usize;
         let prog = rand_program(&p, l, &mut rng);
         let unit = build_unit(&p, &prog, &mut rng);
-        trace_unit(&unit, 0, p.asz, p.le, &mut evs, &format!("rand{}", i), usize::MAX);
+        traced(&unit, 0, p.asz, p.le, &mut evs, &format!("rand{}", i), usize::MAX);
     }
     // arbitrary bytes as a program (monotonicity / width clause)
     for i in 0..nraw {
@@ -612,7 +625,7 @@ fn record(out: &str, a: &Args) {
             .map(|_| if rng.chance(1, 3) { *rng.pick(&[0u8, 1, 2, 3, 9, 0x80, 0xff, 5]) } else { rng.next() as u8 })
             .collect();
         let unit = build_unit(&p, &prog, &mut rng);
-        trace_unit(&unit, 0, p.asz, p.le, &mut evs, &format!("raw{}", i), usize::MAX);
+        traced(&unit, 0, p.asz, p.le, &mut evs, &format!("raw{}", i), usize::MAX);
     }
     // the repository's own line tables
     if let Some(path) = a.opt("--fixture") {
@@ -623,7 +636,7 @@ fn record(out: &str, a: &Args) {
             let mut k = 0;
             while off < sect.len() && k < max {
                 let before = evs.len();
-                match trace_unit(&sect, off, 8, true, &mut evs, &format!("fixture@{}", off), maxprog) {
+                match traced(&sect, off, 8, true, &mut evs, &format!("fixture@{}", off), maxprog) {
                     Some(next) => off = next,
                     None => break,
                 }
